@@ -160,7 +160,7 @@ def body_factory(tier):
             queued_then_new_branch(data, hist, max_faults)
             if hist.violations:
                 return
-        elif pk == 3 and hist.world.mode == 'queue':
+        elif pk in (3, 4) and hist.world.mode == 'queue':
             # fault-free moments count too: two queued pull requests with
             # overlapping targets, the older one not green where only it goes
             c03.older_blocked_prelude(data, hist)
